@@ -553,12 +553,15 @@ ProgStep ==
                   THEN /\ pc' = pc + 1 /\ Use(0, 0, 1) /\ left' = 0
                        /\ Keep(<<ii, budget, capx, status, strict>>)
                   ELSE LET it == Item
-                           secretKind == IF "SecretBypassesCap" \in Bug THEN "none" ELSE op.cap IN
+                           secretKind == IF "SecretBypassesCap" \in Bug THEN "none" ELSE op.cap
+                           \* SkipClassAdRaw counts wire strings and does not know the marker;
+                           \* whether it should is not C13's question (it stays total and bounded)
+                           knowsMarker == scn.ep # "SkipClassAdRaw" IN
                        \* a marker announces that the real expression follows as a secret string
-                       IF ii > 1 /\ scn.items[ii - 1].c = "marker" /\ scn.items[ii - 1].k = "str"
+                       IF knowsMarker /\ ii > 1 /\ scn.items[ii - 1].c = "marker" /\ scn.items[ii - 1].k = "str"
                           /\ it.c # "type" /\ it.c # "badtype"
                        THEN StrRead(it, secretKind, (ii' = ii + 1 /\ pc' = pc)) /\ left' = left - 1
-                       ELSE IF it.c = "marker"
+                       ELSE IF knowsMarker /\ it.c = "marker"
                        THEN StrRead(it, op.cap, (ii' = ii + 1 /\ pc' = pc)) /\ Keep(left)
                        ELSE StrRead(it, op.cap, (ii' = ii + 1 /\ pc' = pc)) /\ left' = left - 1
           [] op.o = "bytes" ->
@@ -632,11 +635,11 @@ NoPanic == status # "panic"
 Bounded == /\ alloc <= AllocA * consumed + AllocB
            /\ steps <= StepC * consumed + StepD
            /\ depth <= DepthMax
-CappedEP == scn.ep \in {"GetStringMax", "GetClassAdMax", "SrvFirst", "CliServerAd", "SrvClaimToBe",
-                        "SrvTokenStep1", "CliTokenStep2", "PassSockHeader"}
-CapTotal == CASE scn.ep \in {"SrvTokenStep1", "CliTokenStep2"} -> 6 * IntU + 3 * CapU + 32
-              [] scn.ep = "SrvFirst" -> 2 * IntU + CapU
-              [] scn.ep \in {"GetClassAdMax", "CliServerAd", "SrvClaimToBe"} -> IntU + CapU
+\* (the capped strings inside SrvClaimToBe / SrvTokenStep1 / CliTokenStep2 are the
+\*  reader bound as GetStringMax; a handshake goes on reading after a failed method)
+CappedEP == scn.ep \in {"GetStringMax", "GetClassAdMax", "SrvFirst", "CliServerAd", "PassSockHeader"}
+CapTotal == CASE scn.ep = "SrvFirst" -> 2 * IntU + CapU
+              [] scn.ep \in {"GetClassAdMax", "CliServerAd"} -> IntU + CapU
               [] scn.ep = "PassSockHeader" -> HdrU + 64
               [] OTHER -> CapU
 CapHonoured == CappedEP => consumed <= CapTotal + CapSlack + (IF Enc THEN 3 * IntU ELSE 0)
